@@ -488,12 +488,19 @@ class Interp:
         else:
             raise Unsupported("in-place update")
 
-    def store_view(self, view, src_at, lineno):
+    def store_view(self, view, src_at, lineno, written=None):
         """view[:] = src (elementwise, same length): rewrite the heap cell the view points into."""
         buf = view.buf
         old = buf.at
         start, step, n = view.start, view.step, view.length
         c = self.ctx
+        dt = getattr(buf, "dtype", None)
+        if dt is not None:
+            from .pybuiltins import NARROW
+            lo, hi = NARROW[dt]
+            wr = written if written is not None else (lambda k: True)
+            c.oblige("%s:store.fits.%s@L%s" % (c.fname, dt, lineno), Forall(lambda k: Implies(And(in_range(k, n), B(wr(k))), And(I(src_at(k)) >= lo, I(src_at(k)) < hi))),
+                     "safety", lineno, "every value stored into the %s array fits its type" % dt)
         if isinstance(step, int) and step == 1:
             def new_at(p, old=old, start=start, n=n):
                 k = I(p) - I(start)
@@ -563,9 +570,9 @@ class Interp:
                     M.use("a[mask] = array (content abstracted)")
                     h = self.ctx.fresh_fun("mask_written")
                     old2 = obj.snapshot()
-                    self.store_view(obj.with_(), lambda k, fm=fm, h=h, old2=old2: Ite(B(fm(k)), h(I(k)), old2(k)), lineno)
+                    self.store_view(obj.with_(), lambda k, fm=fm, h=h, old2=old2: Ite(B(fm(k)), h(I(k)), old2(k)), lineno, written=lambda k, fm=fm: B(fm(k)))
                     return
-                self.store_view(obj.with_(), lambda k, fm=fm, old=old: Ite(B(fm(k)), self.elem_const(v), old(k)), lineno)
+                self.store_view(obj.with_(), lambda k, fm=fm, old=old: Ite(B(fm(k)), self.elem_const(v), old(k)), lineno, written=lambda k, fm=fm: B(fm(k)))
                 return
             if isinstance(idx, SArr):
                 return self.scatter(obj, idx, v, lineno)
@@ -575,7 +582,7 @@ class Interp:
                                "safety", lineno)
                 old = obj.snapshot()
                 vv = self.elem_const(v)
-                self.store_view(obj.with_(), lambda k, old=old, j=j, vv=vv: Ite(I(k) == I(j), vv, old(k)), lineno)
+                self.store_view(obj.with_(), lambda k, old=old, j=j, vv=vv: Ite(I(k) == I(j), vv, old(k)), lineno, written=lambda k, j=j: I(k) == I(j))
                 return
         raise Unsupported("subscript store on %r" % (obj,))
 
@@ -623,7 +630,7 @@ class Interp:
                 c.assume(Forall(lambda k: Implies(in_range(k, m), And(in_range(hit(I(tgt(k))), m), I(tgt(hit(I(tgt(k))))) == I(tgt(k)))),
                                 triggers=[], name="scatter.hit"))
         is_hit = lambda p: And(in_range(hit(I(p)), m), I(tgt(hit(I(p)))) == I(p))
-        self.store_view(obj.with_(), lambda p: Ite(is_hit(p), val(p), old(p)), lineno)
+        self.store_view(obj.with_(), lambda p: Ite(is_hit(p), val(p), old(p)), lineno, written=is_hit)
 
     # ---- loops -----------------------------------------------------------------------
     def do_for(self, s, env):
@@ -1022,6 +1029,13 @@ class Interp:
         return k
 
     def getitem_arr(self, a, idx, lineno):
+        r = self._getitem_arr(a, idx, lineno)
+        dt = getattr(a, "dtype", None)
+        if dt is not None and isinstance(r, (SArr, SArr2)) and getattr(r, "dtype", None) is None:
+            r.dtype = dt              # indexing keeps the element type (matters for uint8 arithmetic, which wraps)
+        return r
+
+    def _getitem_arr(self, a, idx, lineno):
         if isinstance(idx, slice):
             return M.slice1(a, idx.start, idx.stop, idx.step, lineno)
         if idx is Ellipsis:
